@@ -78,7 +78,7 @@ CLAIMED = {
   text="Lean 4 theorem FormakVerif.C09.invariant proves by induction over any finite history of predictions (arbitrary, in particular singular, "
        "Jacobians; PSD process noise) and updates (PD reading noise; accepted or rejected) that a PSD start covariance stays symmetric PSD in exact "
        "arithmetic; joseph_eq_updCov / joseph_valid_for_any_gain prove that the Joseph-form update the filters compute equals P - K H P when the "
-       "inverse is exact and is symmetric PSD for ANY inverse candidate. Tie: exact one-step correspondence with process_model, then binary64 "
+       "inverse is exact and is symmetric PSD for ANY inverse candidate; invariantJ lifts that to any history as the filters run it (no inverse certificate, reading noise merely PSD) and covRunJ_eq_covRun / sensorUpdateJ_eq show the code-shaped functions the driver runs equal the specification-shaped ones on certified inputs. Tie: exact one-step correspondence with process_model, then binary64 "
        "histories on the implementation (mass/z/v/a, generated singular-Jacobian and regular bounded models, scaled problems, slowly drifting "
        "steps with a very precise sensor, a sensor with more readings than states from singular and much larger priors; generated C++): no "
        "refusal of a valid covariance, min eigenvalue and asymmetry within 1e-9 relative to the covariance's own magnitude.",
